@@ -92,6 +92,14 @@ ORACLE = """
        (= (+ (* 86400 (dfc y mo d)) (* 3600 h) (* 60 mi) s) T)))
 """
 
+# switchInt edges that no instant can take (dead code inherited from musl's __secs_to_tm); keyed by the MIR rvalue that
+# defines the switch operand, not by block number. The solver re-proves the deadness on every run (expected unsat); if
+# the edge becomes reachable the query comes back sat and is replayed like any other counterexample.
+EXPECTED_DEAD = {
+    ("Eq(move _, const 25_i32)", "otherwise"):
+        "`if q_cycles == 25` can never fire: after the century step remdays <= 36524 < 25*1461",
+}
+
 FIELDS = ("year", "month", "day", "hour", "minute", "second", "nanos")
 C400 = 146097 * 86400                       # seconds in 400 Gregorian years
 ERA0 = 951868800                            # 2000-03-01T00:00:00Z
@@ -236,30 +244,38 @@ def build_queries(ea, eb, micros_div, tier, seed):
     n = fa["nanos"]
     qs.append(Q("Q6_micros_truncate", "unsat", A +
                 "(assert (not (=> {pc} (and (= {n} a_N) (<= 0 {n}) (< {n} 1000000000) (< (div {n} {K}) 1000000) "
-                "(<= (* {K} (div {n} {K})) {n}) (< (- {n} (* {K} (div {n} {K}))) {K}) (= {K} 1000)))))\n".format(
+                "(<= (* {K} (div {n} {K})) {n}) (< (- {n} (* {K} (div {n} {K}))) {K}) (= (div {n} {K}) (div {n} 1000))))))\n".format(
                     pc=ea.pc_ret.term, n=n, K=micros_div),
                 "every representable instant: nanos field = fraction of the instant, < 10^9; Display's nanos / %d "
-                "(divisor read from the MIR of Display::fmt) is < 10^6 and truncates (never rounds up)" % micros_div,
+                "(divisor read from the MIR of Display::fmt) is < 10^6, truncates (never rounds up) and is the microsecond "
+                "count floor(nanos / 1000)" % micros_div,
                 "property", na, ["a_"]))
     # covers: every switchInt edge (over all unrolled instances) is reachable
     by_edge = {}
     for e in ea.edges:
         if e["dead_target"]:
             continue
-        by_edge.setdefault((e["src"], e["dst"], e["label"]), []).append(e["pc"])
-    for (s, d, lab), pcs in sorted(by_edge.items()):
-        qs.append(Q("COVER_bb%d_bb%d_%s" % (s, d, lab), "sat", A + "(assert (or false %s))\n" % " ".join(pcs),
-                    "branch bb%d -> bb%d [%s] is taken by some representable instant" % (s, d, lab), "cover", na, ["a_"]))
+        by_edge.setdefault((e["src"], e["dst"], e["label"], e["cond_src"]), []).append(e["pc"])
+    for (s, d, lab, src), pcs in sorted(by_edge.items(), key=lambda kv: kv[0][:3]):
+        dead = (src, lab) in EXPECTED_DEAD
+        qs.append(Q("COVER_bb%d_bb%d_%s" % (s, d, lab), "unsat" if dead else "sat",
+                    A + "(assert (or false %s))\n" % " ".join(pcs),
+                    ("branch bb%d -> bb%d [%s] on `%s` is DEAD CODE in the implementation: %s" % (s, d, lab, src, EXPECTED_DEAD[(src, lab)]))
+                    if dead else
+                    "branch bb%d -> bb%d [%s] on `%s` is taken by some representable instant" % (s, d, lab, src),
+                    "deadcode" if dead else "cover", na, ["a_"]))
     qs.append(Q("COVER_feb29", "sat", A + "(assert %s)(assert (= %s 2))(assert (= %s 29))\n" % (ea.pc_ret.term, fa["month"], fa["day"]),
                 "some instant is converted to February 29", "cover", na, ["a_"]))
     qs.append(Q("COVER_year_le_0", "sat", A + "(assert %s)(assert (<= %s 0))(assert (distinct a_nanos 0))\n" % (ea.pc_ret.term, fa["year"]),
                 "some instant with a fraction is converted to a year <= 0", "cover", na, ["a_"]))
     qs.append(Q("COVER_year_gt_9999", "sat", A + "(assert %s)(assert (> %s 9999))\n" % (ea.pc_ret.term, fa["year"]),
                 "some instant is converted to a year > 9999", "cover", na, ["a_"]))
-    if tier == "thorough":
-        qs.append(Q("ATTEMPT_direct_full_range", "unsat", A + "(assert (not %s))\n" % good("a_", ea),
-                    "the round-trip for every representable instant as ONE query (not needed: L1+L2+L3 compose it)",
-                    "attempt", na, ["a_"], tier="thorough", timeout=600))
+    # corroboration, not counted as an obligation: the machine-generated encoding lets cvc5 decide the whole range in
+    # one query (measured 1.4 s; the hand encoding of the design phase did not finish). A timeout here is not
+    # "undecided" (L1+L2+L3 already compose the full range); a `sat` is a counterexample like any other.
+    qs.append(Q("DIRECT_full_range_roundtrip", "unsat", A + "(assert (not %s))\n" % good("a_", ea),
+                "the round-trip for every representable instant as ONE query (corroborates L1+L2+L3)",
+                "attempt", na, ["a_"]))
     return qs
 
 
@@ -427,6 +443,7 @@ def native_eval(instants):
             if parts[2].startswith("OK "):
                 rec["status"] = "OK"
                 rec["fields"] = tuple(int(x) for x in parts[2].split()[1:])
+                rec["text"] = parts[3] if len(parts) > 3 else None      # what the real Display impl prints
             else:
                 rec["status"] = "PANIC"
                 rec["msg"] = parts[2][6:]
@@ -451,52 +468,57 @@ def panic_group(msg):
 
 
 def validate(enc, vectors):
-    """Serval-style translator validation: every native vector is pushed through the encoding.
+    """Serval-style translator validation: every native vector is pushed through the encoding as
+    `(assert (= input k))`: (1) check-sat + get-value must give the native fields bit for bit, (2) asserting that the
+    result differs from the native one must be unsat (the encoding determines the result).
     -> (n_checked, problems[], samples[])"""
     p = enc.prefix
     obl = [o for o in enc.obligations if o["holds_conc"] is not True]
-    lines = ["(set-logic QF_LIA)", enc.smt()]
-    for i, o in enumerate(obl):
-        lines.append("(define-fun %sviol%d () Bool (and %s (not %s)))" % (p, i, o["pc"], o["cond"]))
+    pre = ["(set-logic QF_LIA)"]
     gv = [enc.pc_ret.term] + [enc.fields[f] for f in FIELDS] + ["%sviol%d" % (p, i) for i in range(len(obl))]
-    used = []
-    for v in vectors:
-        if v["status"] == "UNREPRESENTABLE":
-            continue
-        used.append(v)
-        lines.append("(push 1)")
-        lines.append("(assert (= %sbe %s))(assert (= %ssecs %d))(assert (= %snanos %d))" % (
-            p, "true" if v["be"] else "false", p, v["secs"], p, v["nanos"]))
-        lines.append("(check-sat)")
-        lines.append("(get-value (%s))" % " ".join(gv))
+    post = [enc.smt()]
+    for i, o in enumerate(obl):
+        post.append("(define-fun %sviol%d () Bool (and %s (not %s)))" % (p, i, o["pc"], o["cond"]))
+    used = [v for v in vectors if v["status"] != "UNREPRESENTABLE"]
+    vdir = os.path.join(BUILD, "mir2smt", "validate")
+    os.makedirs(vdir, exist_ok=True)
+
+    def one(iv):
+        i, v = iv
+        fix = "(declare-const %sbe Bool)(declare-const %ssecs Int)(declare-const %snanos Int)\n" % (p, p, p)
+        fix += "(assert (= %sbe %s))(assert (= %ssecs %d))(assert (= %snanos %d))" % (
+            p, "true" if v["be"] else "false", p, v["secs"], p, v["nanos"])
+        body = "\n".join(l for l in "\n".join(post).split("\n")
+                         if not re.match(r"\(declare-const %s(be|secs|nanos) " % p, l))
         if v["status"] == "OK":
             eq = " ".join("(= %s %s)" % (enc.fields[f], mir2smt.lit(x)) for f, x in zip(FIELDS, v["fields"]))
-            lines.append("(assert (not (and %s %s)))" % (enc.pc_ret.term, eq))
+            neg = "(assert (not (and %s %s)))" % (enc.pc_ret.term, eq)
         else:
             g = panic_group(v["msg"])
-            vs = ["%sviol%d" % (p, i) for i, o in enumerate(obl) if o["group"] == g]
-            lines.append("(assert (not (and (not %s) (or false %s))))" % (enc.pc_ret.term, " ".join(vs)))
-        lines.append("(check-sat)")
-        lines.append("(pop 1)")
-    f = os.path.join(BUILD, "mir2smt", "validate.smt2")
-    os.makedirs(os.path.dirname(f), exist_ok=True)
-    open(f, "w").write("\n".join(lines) + "\n")
-    r = subprocess.run(["bash", "-c", "ulimit -v 8388608; exec timeout 300 cvc5 --incremental --produce-models '%s'" % f],
-                       stdout=subprocess.PIPE, stderr=subprocess.PIPE, text=True)
-    problems = []
-    if "(error" in r.stdout or r.returncode != 0:
-        return 0, ["validation solver run failed: rc=%s %s" % (r.returncode, (r.stdout + r.stderr)[-400:])], []
-    sx = smt.parse_sexprs(r.stdout)
-    if len(sx) != 3 * len(used):
-        return 0, ["validation: %d answers for %d vectors" % (len(sx), len(used))], []
-    samples = []
-    for i, v in enumerate(used):
-        a, vals, b = sx[3 * i], sx[3 * i + 1], sx[3 * i + 2]
-        if a != "sat" or b != "unsat":
+            vs = ["%sviol%d" % (p, j) for j, o in enumerate(obl) if o["group"] == g]
+            neg = "(assert (not (and (not %s) (or false %s))))" % (enc.pc_ret.term, " ".join(vs))
+        f1 = os.path.join(vdir, "v%03d_value.smt2" % i)
+        f2 = os.path.join(vdir, "v%03d_unique.smt2" % i)
+        open(f1, "w").write("\n".join(pre + ["(set-option :produce-models true)", fix, body, "(check-sat)",
+                                             "(get-value (%s))" % " ".join(gv)]) + "\n")
+        open(f2, "w").write("\n".join(pre + [fix, body, neg, "(check-sat)"]) + "\n")
+        r1 = smt.run_file("cvc5-models", f1, 60, mem_gb=4)
+        r2 = smt.run_file("cvc5", f2, 60, mem_gb=4)
+        return v, r1, r2
+    with concurrent.futures.ThreadPoolExecutor(JOBS) as ex:
+        results = list(ex.map(one, enumerate(used)))
+    problems, samples = [], []
+    for v, r1, r2 in results:
+        if r1["answer"] != "sat" or r2["answer"] != "unsat":
             problems.append("vector %s: solver said %s / %s (expected sat / unsat: the encoding must determine exactly "
-                            "the native result %s)" % (v["input"], a, b, v.get("fields") or v.get("msg")))
+                            "the native result %s)" % (v["input"], r1["answer"], r2["answer"], v.get("fields") or v.get("msg")))
             continue
-        m = [smt.sval(x[1]) for x in vals]
+        try:
+            vals = smt.parse_sexprs(r1["stdout"])[1]
+            m = [smt.sval(x[1]) for x in vals]
+        except Exception as e:  # noqa
+            problems.append("vector %s: cannot parse solver values (%s)" % (v["input"], e))
+            continue
         pc, fields, viol = m[0], tuple(m[1:8]), m[8:]
         if v["status"] == "OK":
             if not pc or fields != v["fields"] or any(viol):
@@ -538,10 +560,14 @@ def replay(q, model):
             bad = True
             nat.append(None)
         else:
-            ent["native_text"] = display(r["fields"])
+            ent["native_text"] = r.get("text") or display(r["fields"])
             nat.append((instant_of(be, secs, nanos), r["fields"]))
+            mm = re.search(r"\.(\d+)Z$", r.get("text") or "")
             if tuple(r["fields"]) != tuple(exp):
                 ent["verdict"] = "native fields differ from the oracle"
+                bad = True
+            elif q.name.startswith("Q6") and not (mm and len(mm.group(1)) == 6 and int(mm.group(1)) == exp[6] // 1000):
+                ent["verdict"] = "native Display prints a sub-second part other than the 6-digit truncated microseconds"
                 bad = True
             else:
                 ent["verdict"] = "native agrees with the oracle"
@@ -601,6 +627,12 @@ def fail(tier, seed, t0, why, extra=None):
 def run(tier, seed):
     t0 = time.time()
     qt = 120 if tier == "quick" else 600
+    # replay files are rewritten by this run only for counterexamples of this run
+    rdir = os.path.join(EVID, "replays")
+    if os.path.isdir(rdir):
+        for f in os.listdir(rdir):
+            if f.startswith(PID + "-") and f.endswith(".json"):
+                os.remove(os.path.join(rdir, f))
     # ---- 1. MIR of the current working tree -> encoding
     try:
         mir_text, mir_s, mir_cmd = mir2smt.dump_mir()
@@ -628,11 +660,11 @@ def run(tier, seed):
         return fail(tier, seed, t0, "native evaluator: %s" % e)
     problems = []
     for (exp, s, us), v in zip(TEST_DATETIME, vecs):
-        if v["status"] != "OK" or display(v["fields"]) != exp:
+        if v["status"] != "OK" or (v.get("text") or display(v["fields"])) != exp:
             # the repo's own expectation fails natively: that is a defect of the tree, reported through the solver below;
             # here it only must not be blamed on the encoding
             vrun.log("NOTE: repo test vector (%d, %d us) natively gives %s, test expects %s" % (
-                s, us, v.get("fields") or v.get("msg"), exp))
+                s, us, v.get("text") or v.get("fields") or v.get("msg"), exp))
     for v in vecs:
         if v["status"] != "UNREPRESENTABLE" and (v["input"].split()[0] == "-") != v["be"] and v["input"] != "- 0 0":
             problems.append("input model: %s answered be=%s" % (v["input"], v["be"]))
@@ -647,7 +679,7 @@ def run(tier, seed):
     rnd = random.Random(seed)
     order = list(qs)
     rnd.shuffle(order)
-    order.sort(key=lambda q: 0 if q.name.startswith(("Q3", "Q1", "Q5", "ATTEMPT")) else 1)   # long ones first
+    order.sort(key=lambda q: 0 if q.name.startswith(("Q3", "Q1", "Q5", "DIRECT")) else 1)   # long ones first
 
     def go(q):
         q.res = smt.solve(os.path.join(QDIR, q.name), q.text, q.names, q.timeout or qt)
@@ -667,7 +699,7 @@ def run(tier, seed):
             jobs.append((w, "z3"))
             jobs.append((w, "z3-new"))
         for q in qs:
-            if q.expect == "unsat" and q.kind != "attempt":
+            if q.expect == "unsat" and q.kind not in ("attempt", "deadcode"):
                 jobs.append((q, "z3"))
                 jobs.append((q, "z3-new"))
 
@@ -706,6 +738,12 @@ def run(tier, seed):
             if a == "unsat":
                 machinery.append("%s: %s -- expected satisfiable (vacuous scope or dead branch in the encoding)" % (q.name, q.desc))
             elif a != "sat":
+                undecided.append(q)
+        elif q.kind == "deadcode":
+            if a == "sat":
+                notes.append("NOTE: %s is reachable in this tree (listed as dead code): model %s" % (q.name, {
+                    k: v for k, v in q.res["model"].items() if k in ("a_be", "a_secs", "a_nanos")}))
+            elif a != "unsat":
                 undecided.append(q)
         else:
             if a == "sat":
@@ -758,7 +796,7 @@ def run(tier, seed):
     if exit_code == 0 and machinery:
         exit_code = 2
     # ---- 6. evidence
-    obl_q = [q for q in qs if q.expect == "unsat" and q.kind != "attempt"]
+    obl_q = [q for q in qs if q.expect == "unsat" and q.kind not in ("attempt", "deadcode")]
     discharged = [q for q in obl_q if q.res["answer"] == "unsat"]
     folded = len([o for o in ea.obligations if o["holds_conc"] is True])
     sat_q = [q for q in qs if q.expect == "sat"]
@@ -790,7 +828,8 @@ def run(tier, seed):
         "obligations": len(obl_q),
         "discharged": len(discharged),
         "checker_cmd": "%s  &&  python3 engines/mir2smt/mir2smt.py (translate)  &&  cvc5 --tlimit=%d000 %s/<query>.smt2 "
-                       "(%d queries: %d expected unsat, %d expected sat)" % (mir_cmd, qt, QDIR, len(qs), len(obl_q) + 1, len(sat_q)),
+                       "(%d queries: %d obligations expected unsat, %d covers/vacuity expected sat, %d other)" % (
+                           mir_cmd, qt, QDIR, len(qs), len(obl_q), len(sat_q), len(qs) - len(obl_q) - len(sat_q)),
         "trusted_base": ["rustc nightly MIR dump (-Zunpretty=mir, overflow-checks on, debug-assertions off)",
                          "engines/mir2smt/mir2smt.py (MIR -> SMT-LIB Int; validated against the native build each run)",
                          "cvc5 1.0.3 (QF_LIA)", "contracts of SystemTime::duration_since, SystemTimeError::duration, "
@@ -824,6 +863,8 @@ def run(tier, seed):
         "solvers": smt.solver_versions(),
         "queries": per_query,
         "undecided": [{"query": q.name, "answer": q.res["answer"]} for q in undecided],
+        "corroboration": [{"query": q.name, "answer": q.res["answer"], "cvc5_wall_s": q.res["wall_s"], "what": q.desc}
+                          for q in qs if q.kind == "attempt"],
         "known_findings_hit": [{"role": KNOWN_ROLE, "what": t, "replay": p} for _, t, p in known_hits],
         "machinery": machinery,
         "cross_check": cross,
